@@ -618,7 +618,8 @@ func (i *IntervalExpression) SQL() string {
 	if i == nil {
 		return ""
 	}
-	return fmt.Sprintf("INTERVAL '%s'", i.Value)
+	// the value is a string literal: quotes inside it are written escaped
+	return "INTERVAL '" + escapeStringLiteral(i.Value) + "'"
 }
 
 func (l *ListExpression) SQL() string {
